@@ -304,6 +304,9 @@ class _LandmarksConditional:
         self.L = L
         self._state_variables.add("L")
 
+        if y_cov_factor is None:
+            y_cov_factor = _sigma_to_y_cov_factor(sigma, y_cov_factor, xu.shape[0])
+
         C = solve_triangular(L_B, dot(A, y_cov_factor), lower=True)
         Z = solve_triangular(L_B.T, C)
         W = solve_triangular(L.T, Z)
@@ -440,6 +443,8 @@ class _LandmarksConditionalCholesky:
         self.L = L
         self._state_variables.add("L")
 
+        if sigma is None:
+            _sigma_to_y_cov_factor(sigma, None, xu.shape[0])
         try:
             Stds = diagonal(sigma)
         except ValueError:
